@@ -1,0 +1,273 @@
+//! Simulated UDP socket: a drop-in for the subset of `std::net` used by this crate. Sockets talk
+//! to a thread-local `SimNet` whose outbox is drained, and whose inboxes are filled, by the
+//! simulator only. Nothing here touches the operating system.
+
+use std::cell::RefCell;
+use std::collections::VecDeque;
+use std::io;
+
+pub use std::net::{IpAddr, Ipv4Addr, Ipv6Addr, SocketAddr, SocketAddrV4, SocketAddrV6, ToSocketAddrs};
+
+struct Sock {
+    local: SocketAddr,
+    peer: Option<SocketAddr>,
+    inbox: VecDeque<(SocketAddr, Vec<u8>)>,
+    inbox_cap: usize,
+    open: bool,
+    recv_errors: u32,
+    send_errors: u32,
+}
+
+/// A datagram handed to the simulated network by a socket.
+#[derive(Clone, Debug)]
+pub struct Outgoing {
+    pub src: SocketAddr,
+    pub dst: SocketAddr,
+    pub bytes: Vec<u8>,
+}
+
+#[derive(Clone, Copy, Debug, PartialEq)]
+pub enum DeliverResult {
+    Delivered,
+    NoSocket,
+    InboxFull,
+}
+
+struct SimNet {
+    socks: Vec<Sock>,
+    outbox: Vec<Outgoing>,
+    ephemeral: VecDeque<SocketAddr>,
+    auto_port: u16,
+    send_failures: u64,
+}
+
+impl SimNet {
+    fn new() -> Self {
+        Self {
+            socks: Vec::new(),
+            outbox: Vec::new(),
+            ephemeral: VecDeque::new(),
+            auto_port: 40000,
+            send_failures: 0,
+        }
+    }
+
+    fn find_open(&self, addr: &SocketAddr) -> Option<usize> {
+        self.socks.iter().position(|s| s.open && s.local == *addr)
+    }
+}
+
+thread_local! {
+    static SIMNET: RefCell<SimNet> = RefCell::new(SimNet::new());
+}
+
+/// Simulator-side controls.
+pub mod sim {
+    use super::*;
+
+    /// Forgets every socket and queued datagram on this thread.
+    pub fn reset() {
+        SIMNET.with(|n| *n.borrow_mut() = SimNet::new());
+    }
+
+    /// The next socket bound to an unspecified address / port 0 gets this address.
+    pub fn push_ephemeral_addr(addr: SocketAddr) {
+        SIMNET.with(|n| n.borrow_mut().ephemeral.push_back(addr));
+    }
+
+    /// Places a datagram in the inbox of the open socket bound to `dst`.
+    pub fn deliver(dst: SocketAddr, src: SocketAddr, bytes: Vec<u8>) -> DeliverResult {
+        SIMNET.with(|n| {
+            let mut n = n.borrow_mut();
+            if let Some(idx) = n.find_open(&dst) {
+                let ref mut sock = n.socks[idx];
+                if sock.inbox.len() >= sock.inbox_cap {
+                    return DeliverResult::InboxFull;
+                }
+                sock.inbox.push_back((src, bytes));
+                DeliverResult::Delivered
+            } else {
+                DeliverResult::NoSocket
+            }
+        })
+    }
+
+    /// Takes every datagram sent since the last call, in send order.
+    pub fn drain_outbox() -> Vec<Outgoing> {
+        SIMNET.with(|n| std::mem::take(&mut n.borrow_mut().outbox))
+    }
+
+    /// The next `n` receive calls on the socket bound to `addr` fail with a transient error.
+    pub fn set_recv_errors(addr: SocketAddr, count: u32) {
+        SIMNET.with(|n| {
+            let mut n = n.borrow_mut();
+            if let Some(idx) = n.find_open(&addr) {
+                n.socks[idx].recv_errors = count;
+            }
+        });
+    }
+
+    /// The next `n` send calls on the socket bound to `addr` fail (the datagram is lost).
+    pub fn set_send_errors(addr: SocketAddr, count: u32) {
+        SIMNET.with(|n| {
+            let mut n = n.borrow_mut();
+            if let Some(idx) = n.find_open(&addr) {
+                n.socks[idx].send_errors = count;
+            }
+        });
+    }
+
+    pub fn set_inbox_capacity(addr: SocketAddr, cap: usize) {
+        SIMNET.with(|n| {
+            let mut n = n.borrow_mut();
+            if let Some(idx) = n.find_open(&addr) {
+                n.socks[idx].inbox_cap = cap;
+            }
+        });
+    }
+
+    pub fn inbox_len(addr: SocketAddr) -> usize {
+        SIMNET.with(|n| {
+            let n = n.borrow();
+            n.find_open(&addr).map_or(0, |idx| n.socks[idx].inbox.len())
+        })
+    }
+
+    pub fn send_failures() -> u64 {
+        SIMNET.with(|n| n.borrow().send_failures)
+    }
+}
+
+#[derive(Debug)]
+pub struct UdpSocket {
+    id: usize,
+}
+
+impl UdpSocket {
+    pub fn bind<A: ToSocketAddrs>(addr: A) -> io::Result<UdpSocket> {
+        let requested = addr.to_socket_addrs()?.next()
+            .ok_or_else(|| io::Error::new(io::ErrorKind::InvalidInput, "no address"))?;
+
+        SIMNET.with(|n| {
+            let mut n = n.borrow_mut();
+
+            let local = if requested.port() == 0 || requested.ip().is_unspecified() {
+                if let Some(a) = n.ephemeral.pop_front() {
+                    a
+                } else {
+                    n.auto_port = n.auto_port.wrapping_add(1);
+                    SocketAddr::new(IpAddr::V4(Ipv4Addr::new(10, 255, 0, 1)), n.auto_port)
+                }
+            } else {
+                requested
+            };
+
+            if n.find_open(&local).is_some() {
+                return Err(io::Error::new(io::ErrorKind::AddrInUse, "address in use"));
+            }
+
+            n.socks.push(Sock {
+                local,
+                peer: None,
+                inbox: VecDeque::new(),
+                inbox_cap: usize::MAX,
+                open: true,
+                recv_errors: 0,
+                send_errors: 0,
+            });
+
+            Ok(UdpSocket { id: n.socks.len() - 1 })
+        })
+    }
+
+    pub fn set_nonblocking(&self, _nonblocking: bool) -> io::Result<()> {
+        Ok(())
+    }
+
+    pub fn connect<A: ToSocketAddrs>(&self, addr: A) -> io::Result<()> {
+        let peer = addr.to_socket_addrs()?.next()
+            .ok_or_else(|| io::Error::new(io::ErrorKind::InvalidInput, "no address"))?;
+        SIMNET.with(|n| n.borrow_mut().socks[self.id].peer = Some(peer));
+        Ok(())
+    }
+
+    pub fn local_addr(&self) -> io::Result<SocketAddr> {
+        SIMNET.with(|n| Ok(n.borrow().socks[self.id].local))
+    }
+
+    pub fn peer_addr(&self) -> io::Result<SocketAddr> {
+        SIMNET.with(|n| n.borrow().socks[self.id].peer
+            .ok_or_else(|| io::Error::new(io::ErrorKind::NotConnected, "not connected")))
+    }
+
+    fn send_impl(&self, buf: &[u8], dst: SocketAddr) -> io::Result<usize> {
+        SIMNET.with(|n| {
+            let mut n = n.borrow_mut();
+            if n.socks[self.id].send_errors > 0 {
+                n.socks[self.id].send_errors -= 1;
+                n.send_failures += 1;
+                return Err(io::Error::new(io::ErrorKind::Other, "simulated send failure"));
+            }
+            let src = n.socks[self.id].local;
+            n.outbox.push(Outgoing { src, dst, bytes: buf.to_vec() });
+            Ok(buf.len())
+        })
+    }
+
+    pub fn send(&self, buf: &[u8]) -> io::Result<usize> {
+        let peer = self.peer_addr()?;
+        self.send_impl(buf, peer)
+    }
+
+    pub fn send_to<A: ToSocketAddrs>(&self, buf: &[u8], addr: A) -> io::Result<usize> {
+        let dst = addr.to_socket_addrs()?.next()
+            .ok_or_else(|| io::Error::new(io::ErrorKind::InvalidInput, "no address"))?;
+        self.send_impl(buf, dst)
+    }
+
+    pub fn recv_from(&self, buf: &mut [u8]) -> io::Result<(usize, SocketAddr)> {
+        SIMNET.with(|n| {
+            let mut n = n.borrow_mut();
+            let ref mut sock = n.socks[self.id];
+
+            if sock.recv_errors > 0 {
+                sock.recv_errors -= 1;
+                return Err(io::Error::new(io::ErrorKind::ConnectionRefused, "simulated receive failure"));
+            }
+
+            loop {
+                if let Some((src, bytes)) = sock.inbox.pop_front() {
+                    if let Some(peer) = sock.peer {
+                        if peer != src {
+                            // A connected socket only sees datagrams from its peer
+                            continue;
+                        }
+                    }
+                    let len = bytes.len().min(buf.len());
+                    buf[.. len].copy_from_slice(&bytes[.. len]);
+                    return Ok((len, src));
+                } else {
+                    return Err(io::Error::new(io::ErrorKind::WouldBlock, "would block"));
+                }
+            }
+        })
+    }
+
+    pub fn recv(&self, buf: &mut [u8]) -> io::Result<usize> {
+        self.recv_from(buf).map(|(len, _)| len)
+    }
+}
+
+impl Drop for UdpSocket {
+    fn drop(&mut self) {
+        // The thread-local may already be gone during thread teardown
+        let _ = SIMNET.try_with(|n| {
+            if let Ok(mut n) = n.try_borrow_mut() {
+                if let Some(sock) = n.socks.get_mut(self.id) {
+                    sock.open = false;
+                    sock.inbox.clear();
+                }
+            }
+        });
+    }
+}
